@@ -717,7 +717,7 @@ def model_check(v: Verdict, prop: str, tier: str) -> None:
         if res.violated:
             v.violation(f"TLC: {res.violated} violated in the device model ({cfg})", {"kind": "tlc", "cfg": cfg, "tail": res.stdout[-3000:]})
     if prop != "C09":
-        a = tlc.require_ok(tlc.run_tlc("MC_Device", "MC_Device_asis.cfg", timeout=900), "device as-is self-test")
+        a = tlc.require_ok(tlc.run_tlc("MC_Device", "MC_Device_asis.cfg", timeout=2400), "device as-is self-test")
         v.notes["asis_selftest"] = {"AsIsNoContain=TRUE violates": a.violated}
         if a.violated != "P_Robust":
             raise tlc.MachineryError(f"self-test: the uncontained driver should violate P_Robust, got {a.violated}")
